@@ -350,12 +350,75 @@ func ruleAlloc(c *Ctx, p *core.Program) {
 	cfg := p.Cfg.Name
 	bc := newBoundCtx(p)
 	n := 0
+	// unexported helpers whose allocation is sized by one of their parameters are accounted at
+	// their call sites (as the caller's own allocation), so that moving an allocation into a
+	// helper does not change which construct an obligation (or a known finding) is keyed by
+	sinkSize := func(in ssa.Instruction) ssa.Value {
+		switch x := in.(type) {
+		case *ssa.MakeSlice:
+			if _, ok := core.ConstInt(x.Len); ok {
+				return nil
+			}
+			return x.Len
+		case *ssa.Call:
+			if f := core.CalleeFunc(x); f != nil && core.IsMethod(f, core.PkgProto, "Buffer", "Ensure") {
+				return x.Call.Args[1]
+			}
+		}
+		return nil
+	}
+	helperParam := map[*ssa.Function]int{}
+	for _, fn := range decodeSide(p) {
+		if fn.Object() == nil || fn.Object().Exported() || len(fn.Params) == 0 {
+			continue
+		}
+		for _, b := range fn.Blocks {
+			for _, in := range b.Instrs {
+				sz := sinkSize(in)
+				if sz == nil {
+					continue
+				}
+				for i, pr := range fn.Params {
+					if _, isInt := pr.Type().Underlying().(*types.Basic); isInt && stripConv(sz) == ssa.Value(pr) {
+						helperParam[fn] = i
+					}
+				}
+			}
+		}
+	}
 	for _, fn := range decodeSide(p) {
 		k := 0
 		for _, b := range fn.Blocks {
 			for _, in := range b.Instrs {
 				var size ssa.Value
 				what := ""
+				if _, isHelper := helperParam[fn]; isHelper {
+					if sz := sinkSize(in); sz != nil {
+						if pr, ok := stripConv(sz).(*ssa.Parameter); ok && pr == fn.Params[helperParam[fn]] {
+							continue // accounted at the call sites
+						}
+					}
+				}
+				if cl, ok := in.(*ssa.Call); ok {
+					if h := core.StaticFn(cl); h != nil {
+						if pi, isHelper := helperParam[h]; isHelper && pi < len(cl.Call.Args) {
+							n++
+							k++
+							key := sprintf("%s/alloc#%d", core.FuncName(fn), k)
+							size = cl.Call.Args[pi]
+							if bc.bounded(size, in, 0) {
+								c.R.Ok(rule, key, cfg, p.Pos(in.Pos()), "allocation in "+h.Name()+" sized by a bounded value")
+							} else {
+								why := bc.why[size]
+								if why == "" {
+									why = "not traceable to a checked value"
+								}
+								c.R.Bad(rule, key, cfg, p.Pos(in.Pos()), "the allocation in "+h.Name()+" is sized by a value that is "+why+" without a cap: a hostile length field makes the process request that much memory (abort) before any data is read")
+							}
+							continue
+						}
+					}
+				}
 				switch x := in.(type) {
 				case *ssa.MakeSlice:
 					if _, ok := core.ConstInt(x.Len); ok {
@@ -474,7 +537,14 @@ func ruleOffsets(c *Ctx, p *core.Program) {
 						case *ssa.FieldAddr:
 							return fieldNameOnly(y.X.Type(), y.Field) == "Offsets"
 						case *ssa.Parameter:
-							return core.IsNamed(y.Type(), core.PkgProto, "ColUInt64")
+							if core.IsNamed(y.Type(), core.PkgProto, "ColUInt64") {
+								return true
+							}
+							if sl, ok := y.Type().Underlying().(*types.Slice); ok {
+								if bt, ok := sl.Elem().Underlying().(*types.Basic); ok && bt.Kind() == types.Uint64 {
+									return true
+								}
+							}
 						}
 						return false
 					}, false)
@@ -518,7 +588,7 @@ func ruleOffsets(c *Ctx, p *core.Program) {
 				}
 				// a "finder" helper without error result: the decrease edge returns a marker, the
 				// caller fails on it
-				if _, hasErr := core.ReturnsError(fn.Signature); !hasErr && fn != dec && fn.Signature.Results().Len() == 1 {
+				if _, hasErr := core.ReturnsError(fn.Signature); !hasErr && fn != dec && fn.Signature.Results().Len() >= 1 {
 					if finderFails(fn, ifi, dec) {
 						found = true
 					}
@@ -1190,6 +1260,15 @@ func ruleRowsUsed(c *Ctx, p *core.Program, rule string) {
 // returns of a "found" marker are reachable, every other return yields one constant "none"
 // value, and in caller every test of the helper's result sends the found side to failure only.
 func finderFails(g *ssa.Function, ifi *ssa.If, caller *ssa.Function) bool {
+	for j := 0; j < g.Signature.Results().Len(); j++ {
+		if finderFailsAt(g, ifi, caller, j) {
+			return true
+		}
+	}
+	return false
+}
+
+func finderFailsAt(g *ssa.Function, ifi *ssa.If, caller *ssa.Function, j int) bool {
 	b := ifi.Block()
 	for si := 0; si < 2; si++ {
 		foundRets := map[*ssa.Return]bool{}
@@ -1218,7 +1297,7 @@ func finderFails(g *ssa.Function, ifi *ssa.If, caller *ssa.Function) bool {
 			if !ok || foundRets[r] {
 				continue
 			}
-			k, okc := constIntOrBool(r.Results[0])
+			k, okc := constIntOrBool(core.ResolveCellLoad(r.Results[j], r))
 			if !okc || none != nil && *none != k {
 				okNone = false
 				break
@@ -1230,7 +1309,7 @@ func finderFails(g *ssa.Function, ifi *ssa.If, caller *ssa.Function) bool {
 		}
 		clash := false
 		for r := range foundRets {
-			if k, okc := constIntOrBool(r.Results[0]); okc && k == *none {
+			if k, okc := constIntOrBool(core.ResolveCellLoad(r.Results[j], r)); okc && k == *none {
 				clash = true
 			}
 		}
@@ -1243,9 +1322,22 @@ func finderFails(g *ssa.Function, ifi *ssa.If, caller *ssa.Function) bool {
 			if core.StaticFn(call) != g {
 				continue
 			}
-			v := call.Value()
-			if v == nil {
+			cv := call.Value()
+			if cv == nil {
 				continue
+			}
+			var v ssa.Value = cv
+			if g.Signature.Results().Len() > 1 {
+				var ex ssa.Value
+				for _, r := range *v.Referrers() {
+					if e, ok := r.(*ssa.Extract); ok && e.Index == j {
+						ex = e
+					}
+				}
+				if ex == nil {
+					continue
+				}
+				v = ex
 			}
 			for _, cb := range caller.Blocks {
 				ci, ok := cb.Instrs[len(cb.Instrs)-1].(*ssa.If)
